@@ -157,6 +157,6 @@ def run_case(case, rec, ctx):
 
 META = {
     "technique": "runtime post-condition on (Non)RelativisticKMatrix.formulate: the returned T-matrix is evaluated numerically (memoised interpreter; lambdified doit() cross-check) on random real parameter sets and judged for S-matrix unitarity and symmetry with numpy",
-    "level_text": "Every formulate() call of the workload (n_channels 1..2 quick / 1..3 thorough, n_poles 1..3/4, L 0..2/4, the three phase-space factors that are real above threshold) is judged at 16 s-values above all thresholds on a fresh random real parameter set: ||(1+2iT)^dagger(1+2iT)-1|| and ||T-T^T|| must vanish to a tolerance scaled by the distance to the nearest pole. Evidence of executions, not proof.",
+    "level_text": "Every formulate() call of the workload (n_channels 1..2 quick / 1..3 thorough, n_poles 1..3/4, L 0..2/4, the three phase-space factors that are real above threshold) is judged at 16 s-values above all thresholds on a fresh random real parameter set: ||(1+2iT)^dagger(1+2iT)-1|| and ||T-T^T|| must vanish to a tolerance scaled by the distance to the nearest pole. Evidence of executions, not proof. Strata with a pole below a channel threshold and below a pseudo-threshold, 3-channel cases also in the quick tier, and call histories (several formulate() calls with the same n_channels in one process) are included.",
     "level_note": "numpy linear algebra trusted; s within 0.02 of a pole and below the highest threshold are not generated; 3-channel cases only in the thorough tier (symbolic inverse costs ~30 s per process).",
 }
